@@ -65,8 +65,11 @@ def input_sets(asg, rng: random.Random, n: int):
     """(dims, content) pairs: empty / full / singleton patterns first, zero-sized and unit dimensions included."""
     out = []
     plans = [("full", (2, 3)), ("empty", (2, 3)), ("one", (2, 3)), (None, (0, 1, 2)), (None, (1,)), (None, (2, 2, 3))]
+    big = max(len(lf["idx"]) for lf in exprs.leaves(asg["rhs"])) >= 4 if exprs.leaves(asg["rhs"]) else False
     for i in range(n):
         pat, sizes = plans[i] if i < len(plans) else (None, (0, 1, 2, 2, 3, 3))
+        if big:
+            sizes = tuple(min(x, 2) for x in sizes)   # order-4 operands: dimensions up to 2
         dims = kernels.choose_dims(asg, rng, sizes)
         out.append((dims, kernels.sample_content(asg, dims, rng, pat)))
     return out
